@@ -14,7 +14,8 @@
 (* (<<"VERDICT", json>>), so one TLC run decides many recorded runs.       *)
 (* Rows: {"e":"run","id":..} {"e":"tick"} {"e":"end"}                       *)
 (*  {"e":"step","t","i","op","g","first","done","x","flags":[..],"fin":n,   *)
-(*   "latch":b,"tag":{"k","n"}, "q":n (first message of a query),          *)
+(*   "latch":b,"tag":{"k","n"},"sameino":b,"changed":b,"oldfd":b,          *)
+(*   "q":n (first message of a query),                                     *)
 (*   "finished","names","lat" (last message of a query)}                   *)
 (*  {"e":"tagobs","tag":{"k","n"},"ino":n} status.tag as seen by a polling  *)
 (*   reader; same inode with different content = rewritten in place        *)
@@ -47,6 +48,13 @@ Failing == {n \in {"FinishedOnlyAfter", "QueryTruthPos", "QueryTruthZero", "Quer
                 [] n = "ErrorText"         -> ~P_ErrorText
                 [] n = "TagAtomic"         -> ~P_TagAtomic}
 
+\* "replaced atomically, never observed half-written", literally: the reader keeps the status.tag it saw last open
+\* until its next look (so the inode number cannot be reused).  changed: the content differs from the previous look;
+\* sameino: same (st_dev, st_ino) as at the previous look; oldfd: what is readable through the old descriptor is no
+\* longer what was read from it.  A replacement by rename gives a new inode and leaves the old one untouched;
+\* write / truncate / open(O_TRUNC) on the visible name do not.
+InPlace(r) == IF (r.changed /\ r.sameino) \/ r.oldfd THEN {"TagInPlace"} ELSE {}
+
 TInit == Init /\ l = 1 /\ viol = {} /\ runid = "-" /\ tino = 0 /\ tsAt = 0
 
 Verdict == PrintT(<<"VERDICT", ToJson([run |-> runid, viol |-> viol \cup Failing])>>)
@@ -73,7 +81,7 @@ TTick == /\ l <= Len(Rec) /\ Rec[l].e = "tick"
 TObs == /\ l <= Len(Rec) /\ Rec[l].e = "tagobs"
         /\ tagF' = TagOf(Rec[l].tag)
         /\ tino' = Rec[l].ino
-        /\ viol' = viol \cup Failing \cup
+        /\ viol' = viol \cup Failing \cup InPlace(Rec[l]) \cup
                    (IF tino # 0 /\ Rec[l].ino = tino /\ TagOf(Rec[l].tag) # tagF THEN {"TagRenameOnly"} ELSE {})
         /\ l' = l + 1
         /\ UNCHANGED <<flags, fin, clock, latch, wpc, wloc, kkLeft, rdLeft, latchLeft, qs, tmpF, fd, reported,
@@ -127,7 +135,7 @@ TStep ==
                                                 !.lat = r.lat, !.tu = timeupAt]
                                 ELSE q2
                       IN [qs EXCEPT ![r.i] = q3]
-  /\ viol' = viol \cup Failing /\ l' = l + 1
+  /\ viol' = viol \cup Failing \cup InPlace(Rec[l]) /\ l' = l + 1
   /\ UNCHANGED <<clock, kkLeft, rdLeft, latchLeft, tmpF, fd, last, runid, tino>>
 
 TNext == TRun \/ TTick \/ TObs \/ TStep
